@@ -60,3 +60,20 @@ Definition fsbs2_case_ok (c : fsbs2_case) : bool :=
   end.
 Definition fsbs2_case_premise (c : fsbs2_case) : bool :=
   forallb (fun se => let '(s, e) := se in forallb (fun k => cusum_trace_ok (s2_xs c) s k e) (seq (s + s2_m c) (e - s2_m c + 1 - (s + s2_m c)))) (s2_ivs c).
+
+(** Circular binary segmentation from the DATA, squared-error cost on one column: the local anomaly score of (s, a, b, e) is
+    outer - (inner + surrounding), the surrounding cost being the cost of the CONCATENATED rows before and after the inner interval, fitted afresh (its own prefix sums). *)
+Definition fslice (s e : nat) (l : list float) : list float := firstn (e - s) (skipn s l).
+Definition local_l2_F (l : list float) (s a b e : nat) : float :=
+  let outer := l2_cost_F l s e in
+  let inner := l2_cost_F l a b in
+  let sur_data := fslice s a l ++ fslice b e l in
+  let sur := l2_cost_F sur_data 0 (length sur_data) in
+  (outer - (inner + sur))%float.
+Record fcbs2_case := { c2_xs : list float; c2_m : nat; c2_thr : float; c2_ivs : list (nat * nat);
+                       c2_anoms : list (nat * nat); c2_inner : list (nat * nat); c2_max : list float }.
+Definition fcbs2_case_ok (c : fcbs2_case) : bool :=
+  match gcbs_any F64 (local_l2_F (c2_xs c)) (c2_m c) (c2_thr c) (c2_ivs c) with
+  | None => false
+  | Some (an, am) => plist_same an (c2_anoms c) && plist_same (map fst am) (c2_inner c) && flist_same (map snd am) (c2_max c)
+  end.
